@@ -280,6 +280,9 @@ def as_sequence(eng, v):
     if isinstance(v, _Enum):
         n, g = as_sequence(eng, v.seq)
         return n, lambda k: (eng.snum(k.z + v.start, "int"), g(k))
+    if isinstance(v, _MapIt):  # map(fn, S) over a symbolic-length S: element k is fn(S[k]), evaluated where the element is requested
+        n, g = as_sequence(eng, v.seq)
+        return n, lambda k: eng.call(v.fn, [g(k)], {})
     if isinstance(v, Opaque) and "__iter_seq__" in v.proto:
         return v.proto["__iter_seq__"](eng, v)
     if isinstance(v, _DictItems) and v.d.items is None:
@@ -1349,7 +1352,13 @@ def _b_cast(eng, args, kwargs):
 
 
 def _b_reversed(eng, args, kwargs):
-    return PList(list(reversed(iterate_concrete(eng, args[0]))))
+    a = args[0]
+    if isinstance(a, PList) and a.items is None and not a.tup:
+        # reversed(L) of a list of symbolic length: an iterator over the elements L[n-1], ..., L[0] (the list-slice model of L[::-1])
+        from . import npmodels
+
+        return Iter(npmodels.plist_slice(eng, a, slice(None, None, -1)))
+    return PList(list(reversed(iterate_concrete(eng, a))))
 
 
 def _b_sorted(eng, args, kwargs):
